@@ -52,6 +52,8 @@ def run(repo, run, tier):
     bracket_invariant(repo, run)
     product_sign_tests(repo, run)
     tolerance_floor(repo, run)
+    no_aliased_iteration_arrays(repo, run)
+
 
 
 def _scalar_tree(fn):
@@ -517,3 +519,71 @@ def tolerance_floor(repo, run):
             if not ok:
                 run.report("C14.8", OPT, c, "%s takes the floating-point resolution from `%s`, not from the bracket's dtype: the requested tolerance can be raised (or lowered) to the "
                                             "resolution of another type, so the returned point need not be within the requested tolerance of a sign change" % (q, src(a) if a is not None else "<default>"))
+
+
+# ------------------------------------------------------------------------------------------------
+def no_aliased_iteration_arrays(repo, run):
+    """'the vectorised solver agrees component-wise with the scalar one': the scalar solver rebinds names, the vector solver updates its arrays IN PLACE under masks
+    (`fa[mask] = fs[mask]`).  Two of those arrays bound to the same object (`fc = fa`) move together from then on: `fa != fc` is never true again, the inverse
+    quadratic step is never taken, and the two solvers take different iterates (on a bracket with several roots they return different roots)."""
+    rid = run.rule("C14.10", "brentsrootvec: no array that is updated by item stores is bound by a plain `x = y` to another name (each "
+                             "iteration array is its own object: copies or fresh results)", floor=1)
+    fn = repo.get(OPT, "brentsrootvec")
+    run.analysed_fn(OPT, fn)
+    stored = set()
+    for st in walk_no_nested(fn):
+        tg = st.targets if isinstance(st, ast.Assign) else ([st.target] if isinstance(st, ast.AugAssign) else [])
+        for t in tg:
+            for x in (t.elts if isinstance(t, (ast.Tuple, ast.List)) else [t]):
+                if isinstance(x, ast.Subscript) and isinstance(x.value, ast.Name):
+                    stored.add(x.value.id)
+    bad = []
+    for st in walk_no_nested(fn):
+        if isinstance(st, ast.Assign) and len(st.targets) == 1 and isinstance(st.targets[0], ast.Name) and isinstance(st.value, ast.Name):
+            a, b = st.targets[0].id, st.value.id
+            if (a in stored or b in stored) and a != b and _alias_hazard(st, a, b):
+                bad.append(st)
+        if isinstance(st, ast.Assign) and len(st.targets) > 1 and all(isinstance(t, ast.Name) and t.id in stored for t in st.targets):
+            bad.append(st)          # a = b = <one array>
+    run.judged(rid, "arrays updated in place: %s; plain bindings between them: %d" % (sorted(stored), len(bad)), ok=not bad)
+    for st in bad:
+        run.report("C14.10", OPT, st, "`%s` binds two arrays that the loop updates in place to ONE object: every masked store into one is a store into the other, so tests that "
+                   "compare them (`fa != fc`: is inverse quadratic interpolation possible?) are constant and the vectorised solver no longer takes the scalar solver's "
+                   "steps" % src(st)[:40])
+
+
+def _alias_hazard(st, a, b):
+    """after `a = b` (statement st): is one of the two names updated by an item store while both still name the same object?  The statements that follow st in its
+    block are scanned in order; a plain rebinding of a (or b) ends the alias; a compound statement (loop / if) that contains an item store into either name while the
+    alias is alive is a hazard."""
+    blk = None
+    par = st._parent
+    for fld in ("body", "orelse", "finalbody"):
+        lst = getattr(par, fld, None)
+        if isinstance(lst, list) and any(x is st for x in lst):
+            blk = lst
+    if blk is None:
+        return True
+    after = blk[[i for i, x in enumerate(blk) if x is st][0] + 1:]
+
+    def item_store(node, names):
+        for x in ast.walk(node):
+            tg = x.targets if isinstance(x, ast.Assign) else ([x.target] if isinstance(x, ast.AugAssign) else [])
+            for t in tg:
+                for e in (t.elts if isinstance(t, (ast.Tuple, ast.List)) else [t]):
+                    if isinstance(e, ast.Subscript) and isinstance(e.value, ast.Name) and e.value.id in names:
+                        return True
+        return False
+
+    def rebinds(node, name):
+        return isinstance(node, ast.Assign) and any(isinstance(t, ast.Name) and t.id == name for t in node.targets) and not (
+            isinstance(node.value, ast.Name) and node.value.id in (a, b))
+    for nxt in after:
+        if rebinds(nxt, a) or rebinds(nxt, b):
+            return False
+        if item_store(nxt, {a, b}):
+            return True
+        # a compound statement (a fold `for c in (c2, c3, ...): mask = logical_or(mask, c)`) that rebinds one of the names and stores into neither ends the alias too
+        if not isinstance(nxt, (ast.Assign, ast.AugAssign, ast.Expr)) and any(rebinds(x, a) or rebinds(x, b) for x in ast.walk(nxt)):
+            return False
+    return False
